@@ -1,12 +1,14 @@
 // C11 bounded stand-in: cumulative sizes and declared file sizes equal what is stored.
 //
 // Bounds (quick | thorough):
-//   files: width W in {2,3} | {2,3,4,5}, chunker size-4, EVERY chunk count 0..W^3+W (last chunk
-//     short), plus width 174 with 175 and 400 chunks;
-//   directories: plain and sharded (fanouts {8,256} | {8,16,64,256,1024}) over 1, 7 colliding,
-//     40 and 300 | 3000 entries whose targets are real stored files / symlinks / directories of
-//     different sizes; a nested tree (plain root -> sharded dir -> plain dir -> files) and a
-//     filesystem import of a small temp tree via BuildUnixFSRecursive.
+//
+//	files: width W in {2,3} | {2,3,4,5}, chunker size-4, EVERY chunk count 0..W^3+W (last chunk
+//	  short), plus width 174 with 175 and 400 chunks;
+//	directories: plain and sharded (fanouts {8,256} | {8,16,64,256,1024}) over 1, 7 colliding,
+//	  40 and 300 | 3000 entries whose targets are real stored files / symlinks / directories of
+//	  different sizes; a nested tree (plain root -> sharded dir -> plain dir -> files) and a
+//	  filesystem import of a small temp tree via BuildUnixFSRecursive.
+//
 // Checks, on every dag-pb block reachable from the returned root: Tsize of each link == encoded
 // length of the target block + (recursively, NOT de-duplicated) the sums of its links; returned
 // size == that sum for the root; for file nodes with links: FileSize == content bytes beneath,
@@ -41,6 +43,7 @@ func audit(r *vp.Run, id string, st *vp.Store, l datamodel.Link, memo map[string
 		r.Fail(id, "block %s is linked but not stored", vp.Short(l.String()))
 		return sums{}
 	}
+	r.Eval("")
 	out := sums{stored: uint64(len(raw))}
 	if !vp.IsPB(l) {
 		out.content = uint64(len(raw))
